@@ -70,9 +70,13 @@ func (k *Keyer) findSpills() {
 					partial[a] = true
 				}
 			case *ssa.MakeClosure:
-				for _, bnd := range x.Bindings {
+				cl, _ := x.Fn.(*ssa.Function)
+				for i, bnd := range x.Bindings {
 					if a, ok := bnd.(*ssa.Alloc); ok {
-						k.captured[a] = true
+						// a local captured by a closure that never writes it is still a plain spill
+						if cl == nil || i >= len(cl.FreeVars) || freeVarWritten(cl, cl.FreeVars[i], 0) {
+							k.captured[a] = true
+						}
 					}
 				}
 			}
@@ -83,6 +87,55 @@ func (k *Keyer) findSpills() {
 			k.spill[a] = vs[0]
 		}
 	}
+}
+
+// freeVarWritten reports whether closure cl (or a nested closure it passes the
+// variable on to) stores through the captured variable fv.
+func freeVarWritten(cl *ssa.Function, fv *ssa.FreeVar, depth int) bool {
+	if depth > 3 || fv.Referrers() == nil {
+		return depth > 3
+	}
+	var chase func(v ssa.Value) bool
+	chase = func(v ssa.Value) bool {
+		refs := v.Referrers()
+		if refs == nil {
+			return false
+		}
+		for _, r := range *refs {
+			switch x := r.(type) {
+			case *ssa.Store:
+				if x.Addr == v {
+					return true
+				}
+			case *ssa.FieldAddr:
+				if chase(x) {
+					return true
+				}
+			case *ssa.IndexAddr:
+				if chase(x) {
+					return true
+				}
+			case *ssa.MakeClosure:
+				inner, _ := x.Fn.(*ssa.Function)
+				for i, b := range x.Bindings {
+					if b == v {
+						if inner == nil || i >= len(inner.FreeVars) || freeVarWritten(inner, inner.FreeVars[i], depth+1) {
+							return true
+						}
+					}
+				}
+			case ssa.CallInstruction:
+				// passed as an argument (pointer escapes to a callee): assume written
+				for _, a := range x.Common().Args {
+					if a == v {
+						return true
+					}
+				}
+			}
+		}
+		return false
+	}
+	return chase(fv)
 }
 
 func shorten(s string) string { return strings.ReplaceAll(s, modPath, "hs") }
